@@ -8,6 +8,8 @@
 From Servitor Require Import Base Unicode Ansi Style Html Gemtext Plaintext.
 From Servitor.Facts Require Import LinkFacts.
 Local Open Scope Z_scope.
+From Servitor Require Import Mime Pub.
+From Servitor.Facts Require Import HtmlFacts MarkupFacts PubFacts.
 
 (* rendering ANY tree only appends targets, and every appended target is labelled with exactly its 1-based position: no repeats, no gaps, document order - anchors inside anchors, images inside anchors, media without src, anchors without href included *)
 Theorem render_node_labels :
@@ -97,3 +99,73 @@ Theorem plain_label_opens_target :
   select (snd (plain_render_with_links col t w)) (Z.of_nat k) = Some u.
 Proof. exact plain_label_opens_target_fact. Qed.
 Print Assumptions plain_label_opens_target.
+
+(* the attachments of a post are printed as one link block per attachment, the j-th carrying the number (body links + j): post_events is the list of (number, attachment) pairs *)
+Theorem post_supplement_spec :
+  forall (col : colors) (p : post) (w : Z) (atts : list link),
+  p_attachments p = FOk atts ->
+  atts <> [] ->
+  post_supplement col p w = Some (join_nl (map (att_line col w) (post_events p))).
+Proof. exact post_supplement_spec_fact. Qed.
+Print Assumptions post_supplement_spec.
+
+(* those numbers continue the body's numbering without repeats or gaps *)
+Theorem att_events_numbers :
+  forall (n : nat) (atts : list link), map fst (att_events n atts) = seq n (length atts).
+Proof. exact att_events_numbers_fact. Qed.
+Print Assumptions att_events_numbers.
+
+(* typing a number within the body's links opens that body link *)
+Theorem post_select_body :
+  forall (p : post) (k : Z) (t : text),
+  select (p_body_links p) k = Some t -> post_select_link p k = Some (t, mt_unknown).
+Proof. exact post_select_body_fact. Qed.
+Print Assumptions post_select_body.
+
+(* typing the number printed next to an attachment selects exactly that attachment's link (nothing when it has no URL) *)
+Theorem post_select_attachment :
+  forall (p : post) (k : nat) (a : link),
+  In (k, a) (post_events p) -> post_select_link p (Z.of_nat k) = link_select a mt_unknown.
+Proof. exact post_select_attachment_fact. Qed.
+Print Assumptions post_select_attachment.
+
+(* numbers outside 1..N open nothing *)
+Theorem post_select_outside :
+  forall (p : post) (k : Z),
+  k < 1 \/ Z.of_nat (length (p_body_links p) + length (post_events p)) < k ->
+  post_select_link p k = None.
+Proof. exact post_select_outside_fact. Qed.
+Print Assumptions post_select_outside.
+
+(* every number in 1..N is either a body link's or an attachment's label *)
+Theorem post_select_inside :
+  forall (p : post) (k : Z),
+  1 <= k <= Z.of_nat (length (p_body_links p) + length (post_events p)) ->
+  (exists t : text, select (p_body_links p) k = Some t) \/
+  (exists a : link, In (Z.to_nat k, a) (post_events p)).
+Proof. exact post_select_inside_fact. Qed.
+Print Assumptions post_select_inside.
+
+(* profiles - the numbers are those of the bio's links *)
+Theorem actor_select :
+  forall (a : actor) (k : Z),
+  actor_select_link a k =
+  match select (a_bio_links a) k with
+  | Some t => Some (t, mt_unknown)
+  | None => None
+  end.
+Proof. exact actor_select_fact. Qed.
+Print Assumptions actor_select.
+
+(* selecting a link yields its own URL *)
+Theorem link_select_uri :
+  forall (l : link) (d : media_type) (u : text) (m : media_type),
+  link_select l d = Some (u, m) -> l_uri l = FOk u.
+Proof. exact link_select_uri_fact. Qed.
+Print Assumptions link_select_uri.
+
+Theorem link_select_none :
+  forall (l : link) (d : media_type),
+  link_select l d = None <-> (forall u : text, l_uri l <> FOk u).
+Proof. exact link_select_none_fact. Qed.
+Print Assumptions link_select_none.
